@@ -250,13 +250,13 @@ func (c *Ctx) driverRoles() *DriverRoles {
 					dr.Ser = f
 				case rs.Len() == 3 && isStringType(rs.At(0).Type()) && isErrorType(rs.At(2).Type()) && c.calls(dr.RenderParam, f):
 					dr.SerParam = f
-				case rs.Len() == 1 && isBool(rs.At(0).Type()) && c.calls(dr.Render, f):
+				case rs.Len() == 1 && isBool(rs.At(0).Type()) && c.callsTransitively(dr.Render, f, 2, map[*ssa.Function]bool{}):
 					dr.IsSimple = f
 				}
 			}
 			continue
 		}
-		if ps.Len() == 1 && isEmptyInterface(ps.At(0).Type()) && rs.Len() == 1 && isBool(rs.At(0).Type()) && c.calls(dr.Render, f) {
+		if ps.Len() == 1 && isEmptyInterface(ps.At(0).Type()) && rs.Len() == 1 && isBool(rs.At(0).Type()) && c.callsTransitively(dr.Render, f, 2, map[*ssa.Function]bool{}) {
 			dr.IsSimple = f
 		}
 		if ps.Len() == 3 && rs.Len() == 2 && isStringType(ps.At(0).Type()) && isStringType(ps.At(1).Type()) && c.calls(dr.RenderParam, f) {
@@ -281,4 +281,23 @@ func (c *Ctx) driverRoles() *DriverRoles {
 		dr.Err = "serialisers not resolved"
 	}
 	return dr
+}
+
+// serKeep: functions never inlined when the driver's code is read path by path — the two renderers, the
+// two serialisers, and any driver method with a serialiser's signature (a wrapper that stands for "the
+// serialisation of this operand", e.g. one that special-cases an unbounded range end).
+func (c *Ctx) serKeep() []*ssa.Function {
+	dr := c.driverRoles()
+	out := []*ssa.Function{dr.Render, dr.RenderParam, dr.Ser, dr.SerParam}
+	for _, f := range c.Funcs {
+		if fnPkgPath(f) != pkgDriver || f.Parent() != nil || f.Signature.Recv() == nil || f == dr.Ser || f == dr.SerParam {
+			continue
+		}
+		for _, s := range []*ssa.Function{dr.Ser, dr.SerParam} {
+			if s != nil && types.Identical(f.Signature.Params(), s.Signature.Params()) && types.Identical(f.Signature.Results(), s.Signature.Results()) {
+				out = append(out, f)
+			}
+		}
+	}
+	return out
 }
